@@ -81,3 +81,68 @@ package types
 
 //@ entry Infer
 //@   props C12
+
+// ---- unification (C17, C05, C16) ------------------------------------------
+
+//@ func freeFrom
+//@   props C17 C05
+//@   requires s != nil && wfT(ty)
+//@   unfold wfT(ty)
+//@   unfold occurs(s.Name, ty)
+//@   modifies
+//@   loop 1 invariant forall(j, 0, rangeindex+1, !occurs(s.Name, ty.Obj().Fields[j].Val))
+//@   loop 2 invariant forall(j, 0, rangeindex+1, !occurs(s.Name, ty.Fun().Param[j]))
+//@   ensures #occurs result == !occurs(s.Name, ty)
+
+//@ func Obj
+//@   props C17 C05 C01
+//@   fails_iff exists(i, 0, len(fields), exists(j, 0, i, fields[j].Name == fields[i].Name))
+//@   modifies
+//@   loop 1 invariant t.Index != nil && isfresh(t.Index) && same(t.Fields, fields) && t.Kind == KObj && rangeindex+1 <= len(fields)
+//@   loop 1 invariant forall(k, 0, rangeindex+1, mapHas(t.Index, fields[k].Name) && mapGet(t.Index, fields[k].Name) == k)
+//@   loop 1 invariant forallstr(s, mapHas(t.Index, s) ==> 0 <= mapGet(t.Index, s) && mapGet(t.Index, s) <= rangeindex && fields[mapGet(t.Index, s)].Name == s)
+//@   ensures #node result != nil && isfresh(result) && dynis(result, ObjTy) && result.Kind == KObj && same(result.Obj().Fields, fields)
+//@   ensures #index wfObj(result.Obj())
+
+//@ func applySubst
+//@   props C17 C05
+//@   requires wfT(ty) && wfSubst(m)
+//@   unfold wfT(ty)
+//@   modifies
+//@   loop 1 invariant len(ks) == len(t.Val) && isfresh(ks) && forall(j, 0, rangeindex+1, wfT(ks[j]) && allocated(ks[j]))
+//@   loop 2 invariant len(fs) == len(o.Fields) && isfresh(fs) && forall(j, 0, rangeindex+1, wfT(fs[j].Val) && allocated(fs[j].Val) && fs[j].Name == o.Fields[j].Name)
+//@   loop 3 invariant len(params) == len(f.Param) && isfresh(params) && forall(j, 0, rangeindex+1, wfT(params[j]) && allocated(params[j]))
+//@   unfold @return wfT(result)
+//@   ensures #wf wfT(result)
+
+// unify: local soundness of every binding it makes.  Where the substitution
+// map is written, the bound type does not contain the variable (occurs
+// check on the substituted type), and a variable that is already bound is
+// only ever re-bound to an equal type (never to two different types); the
+// substitution stays a map to well-formed types and a successful result is
+// a well-formed type.  The global laws (the substitution unifies, matching is
+// complete) are covered only by the bounded stand-in.
+//@ func unify
+//@   props C17 C05 C16
+//@   requires wfT(x) && wfT(y) && wfSubst(m) && inProcess != nil
+//@   unfold wfT(x)
+//@   unfold wfT(y)
+//@   modifies m[*], allmaps(util.PtrPtrSet), allmaps(util.PtrSet)
+//@   at mapupdate m: assert #occurs-check !occurs(key, value)
+//@   at mapupdate m: assert #single-binding mapHas(m, key) ==> tyEq(mapGet(m, key), value)
+//@   at mapupdate m: assert #wf wfT(value)
+//@   ensures #subst wfSubst(m)
+//@   ensures #result result != nil ==> wfT(result)
+
+//@ func unifyComposite
+//@   props C17 C05 C16
+//@   requires wfT(x) && wfT(y) && wfSubst(m) && inProcess != nil && x.Kind == y.Kind && x.Kind > kCompositeBegin
+//@   unfold wfT(x)
+//@   unfold wfT(y)
+//@   modifies m[*], allmaps(util.PtrPtrSet), allmaps(util.PtrSet)
+//@   loop 1 invariant wfSubst(m) && len(ks) == len(xtv) && len(xtv) == len(ytv) && isfresh(ks) && forall(j, 0, rangeindex+1, wfT(ks[j]) && allocated(ks[j]))
+//@   loop 2 invariant wfSubst(m) && len(fs) == len(xfs) && isfresh(fs) && forall(j, 0, rangeindex+1, wfT(fs[j].Val) && allocated(fs[j].Val) && fs[j].Name == xfs[j].Name)
+//@   loop 3 invariant wfSubst(m) && len(params) == len(xf.Param) && len(xf.Param) == len(yf.Param) && isfresh(params) && forall(j, 0, rangeindex+1, wfT(params[j]) && allocated(params[j]))
+//@   unfold @return wfT(result)
+//@   ensures #subst wfSubst(m)
+//@   ensures #result result != nil ==> wfT(result)
